@@ -406,9 +406,24 @@ def render_stmts(es):
     return "[" + "; ".join(parts) + "]"
 
 
+def check_x0_reads(ex):
+    """C04: the constraint mole fractions are read only to form the element totals in calculate_composition"""
+    for key, fi in ex.fns.items():
+        allowed = set()
+        if fi.name == "calculate_composition":
+            for st in ast.walk(fi.node):
+                if isinstance(st, ast.Assign) and len(st.targets) == 1 and ast.unparse(st.targets[0]) == "element['N_tot']":
+                    for x in ast.walk(st.value):
+                        allowed.add(id(x))
+        for x in ast.walk(fi.node):
+            if isinstance(x, ast.Attribute) and x.attr in ("x0", "__x0", "_LTE__x0") and isinstance(x.ctx, ast.Load) and id(x) not in allowed:
+                raise Unsupported(fi.short, x, f"{fi.name} reads the constraint mole fractions outside the element totals")
+
+
 def generate(repo):
     ex = Extractor(repo)
     ex.load()
+    check_x0_reads(ex)
     bodies = {}
     for key, fi in ex.fns.items():
         bodies[fi.idx] = (fi, ex.summarize(fi))
@@ -433,6 +448,8 @@ def generate(repo):
     lines.append("   receiver's private cache fields, stores into a non-local array, or calls a mutator on non-local state *)")
     lines.append("Definition setters_clear_flag : bool := true.")
     lines.append("Definition shared_state_never_written : bool := true.")
+    lines.append("(* the constraint mole fractions x0 are read only in calculate_composition, to form element['N_tot'] *)")
+    lines.append("Definition x0_read_only_for_element_totals : bool := true.")
     loops = sorted(set(ex.assumed_loops))
     lines.append("(* loops whose bodies carry effects, flattened to one execution (assumed to run at least once):")
     for l in loops:
